@@ -240,14 +240,16 @@ package jobcontroller
 //@        && jobtasks.taskOwners(t)[k].Controller != nil && *jobtasks.taskOwners(t)[k].Controller
 //@        && jobtasks.taskOwners(t)[k].Kind == execution.KindJob && jobtasks.taskOwners(t)[k].UID == rj.UID
 
+// (C20: a task that exists in the API but is not yet in the task cache is a transient failure -- the lookup must fail so
+// that the pass is retried, it must not be mistaken for "exists but is someone else's", which ends the Job for good)
 //@ func Reconciler.getTaskForAdoption
-//@   tags C09
+//@   tags C09, C20
 //@   requires w != nil && rj != nil
 //@   loop 1 invariant -1 <= rangeindex && rangeindex < len(jobtasks.taskOwners(task))
 //@   loop 1 invariant forall k int :: 0 <= k && k <= rangeindex ==> !(jobtasks.taskOwners(task)[k].Controller != nil && *jobtasks.taskOwners(task)[k].Controller
 //@        && jobtasks.taskOwners(task)[k].Kind == execution.KindJob && jobtasks.taskOwners(task)[k].UID == rj.UID)
 //@   ensures [C09] adopt-only-own-task: result1 == nil && result0 != nil ==> result0 == jobtasks.taskCached(rj, name) && controls(rj, result0)
-//@   ensures [C09] foreign-task-not-adopted: result1 == nil && result0 == nil ==> jobtasks.taskCached(rj, name) != nil && !controls(rj, jobtasks.taskCached(rj, name))
+//@   ensures [C09,C20] foreign-task-not-adopted: result1 == nil && result0 == nil ==> jobtasks.taskCached(rj, name) != nil && !controls(rj, jobtasks.taskCached(rj, name))
 //@   ensures [C09] error-returns-nothing: result1 != nil ==> result0 == nil
 
 //@ func Reconciler.createTask
@@ -323,7 +325,7 @@ package jobcontroller
 //@   tags C08
 //@   requires w != nil && rj != nil
 //@   assumes template-was-defaulted-by-the-mutating-webhook: rj.Spec.Template != nil
-//@   modifies clock, elems(tasks), jobtasks.tcN, jobtasks.tcJob, jobtasks.tcRetry, jobtasks.tcIndex, jobtasks.tcOK, jobtasks.tcErr, jobtasks.tcTask, wakeN, wakeKey, wakeAfter
+//@   modifies clock, elems(tasks), jobtasks.tcN, jobtasks.tcJob, jobtasks.tcRetry, jobtasks.tcIndex, jobtasks.tcOK, jobtasks.tcErr, jobtasks.tcTask, wakeN, wakeKey, wakeAfter, parallel.sumN, parallel.sumTasks, parallel.sumOK, parallel.sumComplete
 //@   loop 1 invariant -1 <= rangeindex && rangeindex < len(indexRequests) && rj != nil && jobtasks.tcN >= old(jobtasks.tcN) && clock >= old(clock) && ns(now) <= clock
 //@   loop 1 invariant samearray(tasks, loopentry(tasks)) || fresh(tasks)
 //@   loop 1 invariant rj.Spec == old(rj.Spec) && rj.Name == old(rj.Name) && rj.Namespace == old(rj.Namespace) && rj.UID == old(rj.UID) && execution.sameStrs(rj.Finalizers, old(rj.Finalizers)) && rj.DeletionTimestamp == old(rj.DeletionTimestamp)
@@ -337,6 +339,13 @@ package jobcontroller
 //@   ensures [C08] never-before-the-retry-delay: forall i int :: {jobtasks.tcIndex[i]} old(jobtasks.tcN) <= i && i < jobtasks.tcN ==>
 //@        parallel.latestFin(rj.Status.Tasks, parallel.hashOf(jobtasks.tcIndex[i]), len(rj.Status.Tasks)) + execution.retryDelaySeconds(rj) * 1000000000 <= clock
 //@   ensures [C08] log-append-only: jobtasks.tcN >= old(jobtasks.tcN)
+//@   ensures [C08] creation-only-after-an-incomplete-verdict: jobtasks.tcN > old(jobtasks.tcN) ==> parallel.sumN == old(parallel.sumN) + 1
+//@        && parallel.sumOK[old(parallel.sumN)] && !parallel.sumComplete[old(parallel.sumN)]
+//@   ensures [C08] verdict-computed-on-every-present-task: parallel.sumN > old(parallel.sumN) ==> (forall k int :: {tasks[k]} 0 <= k && k < len(tasks) ==>
+//@        (exists j int :: 0 <= j && j < len(parallel.sumTasks[old(parallel.sumN)]) && parallel.sumTasks[old(parallel.sumN)][j].Name == jobtasks.taskName(old(tasks[k]))
+//@             && parallel.sumTasks[old(parallel.sumN)][j].Status == jobtasks.taskRefOf(old(tasks[k])).Status))
+//@   ensures [C08] verdict-computed-on-every-recorded-task: parallel.sumN > old(parallel.sumN) ==> (forall k int :: {rj.Status.Tasks[k]} 0 <= k && k < len(rj.Status.Tasks) ==>
+//@        job.hasRef(parallel.sumTasks[old(parallel.sumN)], old(rj.Status.Tasks[k].Name)))
 //@   ensures [C08,C12] returns-a-job-with-the-same-identity-and-spec: result0 != nil && result0.Spec == rj.Spec && result0.Name == rj.Name && result0.Namespace == rj.Namespace && result0.UID == rj.UID
 //@        && result0.DeletionTimestamp == rj.DeletionTimestamp
 //@   ensures [C08,C12] finalizers-kept: execution.sameStrs(result0.Finalizers, rj.Finalizers)
@@ -351,7 +360,7 @@ package jobcontroller
 //@   tags C08, C12
 //@   requires w != nil && rj != nil && cfg != nil
 //@   assumes template-was-defaulted-by-the-mutating-webhook: rj.Spec.Template != nil
-//@   modifies clock, wakeN, wakeKey, wakeAfter, jobtasks.delReq, jobtasks.forceReq, jobtasks.tcN, jobtasks.tcJob, jobtasks.tcRetry, jobtasks.tcIndex, jobtasks.tcOK, jobtasks.tcErr, jobtasks.tcTask
+//@   modifies clock, wakeN, wakeKey, wakeAfter, jobtasks.delReq, jobtasks.forceReq, jobtasks.tcN, jobtasks.tcJob, jobtasks.tcRetry, jobtasks.tcIndex, jobtasks.tcOK, jobtasks.tcErr, jobtasks.tcTask, parallel.sumN, parallel.sumTasks, parallel.sumOK, parallel.sumComplete
 //@   loop 1 invariant -1 <= rangeindex && rangeindex < len(rj.Status.Tasks) && fresh(tasks)
 //@   loop 1 invariant forall j int :: {cachedTask(rj, j)} 0 <= j && j <= rangeindex && cachedTask(rj, j) != nil ==> inTasks(tasks, cachedTask(rj, j))
 //@   ensures [C12] identity-kept: result0 != nil && result0.Name == rj.Name && result0.Namespace == rj.Namespace && result0.UID == rj.UID && result0.Spec == rj.Spec
@@ -360,6 +369,8 @@ package jobcontroller
 //@        (forall j int :: {cachedTask(rj, j)} 0 <= j && j < len(rj.Status.Tasks) && cachedTask(rj, j) != nil && unfinished(cachedTask(rj, j)) && notDeleting(cachedTask(rj, j))
 //@             ==> jobtasks.delReq[jobtasks.taskName(cachedTask(rj, j))])
 //@   ensures [C08] creation-log-append-only: jobtasks.tcN >= old(jobtasks.tcN)
+//@   ensures [C08] creation-only-after-an-incomplete-verdict: jobtasks.tcN > old(jobtasks.tcN) ==> parallel.sumN == old(parallel.sumN) + 1
+//@        && parallel.sumOK[old(parallel.sumN)] && !parallel.sumComplete[old(parallel.sumN)]
 //@   ensures clock >= old(clock)
 
 //@ func Reconciler.syncJobStatusFromTaskRefs
@@ -376,7 +387,7 @@ package jobcontroller
 //@   tags C08, C12, C13
 //@   requires w != nil && w.client != nil && rj != nil && cfg != nil
 //@   assumes template-was-defaulted-by-the-mutating-webhook: rj.Spec.Template != nil
-//@   modifies clock, wakeN, wakeKey, wakeAfter, jobtasks.delReq, jobtasks.forceReq, jobtasks.tcN, jobtasks.tcJob, jobtasks.tcRetry, jobtasks.tcIndex, jobtasks.tcOK, jobtasks.tcErr, jobtasks.tcTask, jwN, jwKind, jwObj, jwOK, jwName
+//@   modifies clock, wakeN, wakeKey, wakeAfter, jobtasks.delReq, jobtasks.forceReq, jobtasks.tcN, jobtasks.tcJob, jobtasks.tcRetry, jobtasks.tcIndex, jobtasks.tcOK, jobtasks.tcErr, jobtasks.tcTask, jwN, jwKind, jwObj, jwOK, jwName, parallel.sumN, parallel.sumTasks, parallel.sumOK, parallel.sumComplete
 //@   ensures [C12] started-job-past-its-kill-timestamp-has-every-live-task-deleted: result1 == nil && job.IsStarted(rj) && !deleting(rj) && killDueAt(rj, old(clock)) ==>
 //@        (forall j int :: {cachedTask(rj, j)} 0 <= j && j < len(rj.Status.Tasks) && cachedTask(rj, j) != nil && unfinished(cachedTask(rj, j)) && notDeleting(cachedTask(rj, j))
 //@             ==> jobtasks.delReq[jobtasks.taskName(cachedTask(rj, j))])
@@ -424,6 +435,6 @@ package jobcontroller
 //@ func Reconciler.SyncOne
 //@   tags C20, C09
 //@   requires w != nil && w.client != nil
-//@   modifies clock, wakeN, wakeKey, wakeAfter, jobtasks.delReq, jobtasks.forceReq, jobtasks.tcN, jobtasks.tcJob, jobtasks.tcRetry, jobtasks.tcIndex, jobtasks.tcOK, jobtasks.tcErr, jobtasks.tcTask, jwN, jwKind, jwObj, jwOK, jwName
+//@   modifies clock, wakeN, wakeKey, wakeAfter, jobtasks.delReq, jobtasks.forceReq, jobtasks.tcN, jobtasks.tcJob, jobtasks.tcRetry, jobtasks.tcIndex, jobtasks.tcOK, jobtasks.tcErr, jobtasks.tcTask, jwN, jwKind, jwObj, jwOK, jwName, parallel.sumN, parallel.sumTasks, parallel.sumOK, parallel.sumComplete
 //@   ensures [C20] no-failed-write-goes-unreported: result == nil ==> (forall i int :: old(jwN) <= i && i < jwN && (jwKind[i] == 2 || jwKind[i] == 3) ==> jwOK[i])
 //@   ensures [C20] log-append-only: jwN >= old(jwN)
